@@ -348,7 +348,7 @@ def gen_xcsv(r, ctx=None):
     kind = r.choice(["u", "c", "c", "r", "r"]); ty = r.choice(["f64", "f64", "f32"]); lp = r.choice(["F", "L"])
     nout = r.choice([1, 2, 3]) if kind == "r" else 1
     sep = r.choice(XSEPS); sci = r.choice([1, 1, 0]); width = r.choice([0, 0, 0, 1, 8, 12, 20, 30])
-    maxB = r.choice([1, 2, 3, 5, 256]); n = r.choice([0, 1, 2, 3, 5, 8, 13]); dim = r.choice([1, 1, 2, 3, 6, 0] if r.chance(1, 6) else [1, 2, 3, 6])
+    maxB = r.choice([1, 2, 3, 5, 256] + ([0] if 0 in MAXB_CHOICES else [])); n = r.choice([0, 1, 2, 3, 5, 8, 13]); dim = r.choice([1, 1, 2, 3, 6, 0] if r.chance(1, 6) else [1, 2, 3, 6])
     labelset = r.choice(["01", "012", "12", "all0", "all1", "02", "big"])
     toks = []
     for e in range(n):
@@ -388,6 +388,17 @@ def gen_xsvm(r, ctx=None):
     return " ".join(["xsvm", fmt, lab, ty, str(dims), str(bs), str(omo), str(srt), str(app), str(n), str(dim)] + toks)
 
 
+def reuse_prefix(r, ctx=None):
+    """boundary class "reuse of objects": one import in eight goes into a dataset object that already holds data"""
+    re_ = r.chance(1, 8)
+    if ctx: ctx.hist("target_object", "holds-data" if re_ else "fresh")
+    return "reuse " if re_ else ""
+
+
+def strip_reuse(op):
+    return op[6:] if op.startswith("reuse ") else op
+
+
 def svm_op(r, data, ctx=None, forced=None):
     fmt = r.choice(["d", "s"]); lab = r.choice(["c", "r"]); ty = r.choice(["f64", "f32"])
     dims = r.choice([0, 0, 0, 1, 3, 8, 25, 25, 131072, 4294967295])
@@ -397,7 +408,7 @@ def svm_op(r, data, ctx=None, forced=None):
     via = "svmf" if r.chance(1, 4) else "svm"
     if ctx:
         ctx.hist("svm_overload", f"{fmt}{lab}{ty}{'-file' if via == 'svmf' else '-stream'}"); ctx.hist("mode", m); ctx.hist("batch_size_arg", bs); ctx.hist("dims_arg", dims)
-    return f"{via} {fmt} {lab} {ty} {dims} {bs} {m} {hx(data)}"
+    return reuse_prefix(r, ctx) + f"{via} {fmt} {lab} {ty} {dims} {bs} {m} {hx(data)}"
 
 
 def gen_csv_file(r, kind, lp, sep, nout, ctx=None, comment="#"):
@@ -472,7 +483,12 @@ def avoid_f11(ctx, make, float_scalar=False):
     return data
 
 
-def csv_op(params, data, ctx=None):
+def csv_op(params, data, ctx=None, r=None):
+    pre = reuse_prefix(r, ctx) if r is not None else ""
+    return pre + csv_op0(params, data, ctx)
+
+
+def csv_op0(params, data, ctx=None):
     kind, ty, lp, sep, nout, maxb = params[:6]
     comment = params[6] if len(params) > 6 else "#"
     title = params[7] if len(params) > 7 else None
@@ -501,8 +517,8 @@ def gen_csv1(r, ctx=None):
     for t in toks:
         out += t + r.choice([" ", " ", "\n", "\t", "\r\n", "  "])
     if r.chance(1, 3): out = out.rstrip()
-    maxb = r.choice([1, 2, 3, 256])
-    if ctx: ctx.hist("csv1_type", ty); ctx.hist("csv1_values", n)
+    maxb = r.choice(MAXB_CHOICES)
+    if ctx: ctx.hist("csv1_type", ty); ctx.hist("csv1_values", n); ctx.hist("csv1_batch", maxb)
     return ty, maxb, out.encode()
 
 
@@ -518,7 +534,7 @@ def gen_rt(r, ctx=None):
     if r.chance(3, 5):
         kind = r.choice(["c", "r"]); lp = r.choice(["F", "L"]); sep = r.choice([",", ";", " ", "\t", "|", ":"])
         nout = r.choice([1, 2, 3]) if kind == "r" else 1
-        maxb = r.choice([1, 2, 3, 5, 256])
+        maxb = r.choice([1, 2, 3, 5, 256] + ([0] if 0 in MAXB_CHOICES else []))
         if ctx:
             ctx.hist("rt_kind", f"csv-{kind}-{lp}"); ctx.hist("rt_separator", repr(sep)); ctx.hist("rt_batch", maxb); ctx.hist("rt_elements", n)
         return f"rt csv {kind} {lp} {nout} {ord(sep)} {maxb} {dim} {seed} {n}"
@@ -541,7 +557,7 @@ def load_corpus():
 
 
 def decode(op):
-    t = op.split()
+    t = strip_reuse(op).split()
     if t[0] in ("rt", "xcsv", "xsvm"): return b""
     return bytes.fromhex(t[-1]) if t[-1] != "-" else b""
 
@@ -555,7 +571,7 @@ def svm_unsorted(data):
 
 
 def classify(ops, res):
-    op = ops[-1]; t = op.split(); data = decode(op)
+    op = strip_reuse(ops[-1]); t = op.split(); data = decode(op)
     what_in = f"{' '.join(t[:-1])} bytes={data[:80]!r}"
     if t[0] == "rt":
         what_in = op
@@ -672,7 +688,7 @@ def run(ctx):
     f13_cases = []      # while F-C19-13 is open: files that trigger it abort the harness, so they run one by one in their own group
     def add_svm(data):
         op = svm_op(r, data, ctx)
-        if not LABEL_CAST_REPAIRED and op.split()[2] == "c" and label_cast_trigger(data):
+        if not LABEL_CAST_REPAIRED and strip_reuse(op).split()[2] == "c" and label_cast_trigger(data):
             f13_cases.append([op]); ctx.count("svm_cases_with_label_outside_int_range")
         else:
             cases.append([op])
@@ -688,14 +704,14 @@ def run(ctx):
         add_svm(data)
     for _ in range(nvalid):
         prm = csv_params(r)
-        cases.append([csv_op(prm, avoid_f11(ctx, lambda: gen_csv_file(r, prm[0], prm[2], prm[3], prm[4], ctx, comment=prm[6])), ctx)])
+        cases.append([csv_op(prm, avoid_f11(ctx, lambda: gen_csv_file(r, prm[0], prm[2], prm[3], prm[4], ctx, comment=prm[6])), ctx, r)])
     for _ in range(nmut):
         prm = csv_params(r)
-        cases.append([csv_op(prm, avoid_f11(ctx, lambda: mutate(r, gen_csv_file(r, prm[0], prm[2], prm[3], prm[4], comment=prm[6]), ctx)), ctx)])
+        cases.append([csv_op(prm, avoid_f11(ctx, lambda: mutate(r, gen_csv_file(r, prm[0], prm[2], prm[3], prm[4], comment=prm[6]), ctx)), ctx, r)])
     for k in range(nhost):
         prm = csv_params(r)
         data = avoid_f11(ctx, lambda: mutate(r, gen_hostile_csv(r, prm[0], prm[2], prm[3], ctx), ctx) if k % 3 == 2 else gen_hostile_csv(r, prm[0], prm[2], prm[3], ctx))
-        cases.append([csv_op(prm, data, ctx)])
+        cases.append([csv_op(prm, data, ctx, r)])
     for _ in range(nvalid // 5):
         ty, maxb, data = gen_csv1(r, ctx)
         for _ in range(8):
@@ -715,7 +731,7 @@ def run(ctx):
     if f13_cases:
         core.correspond(ctx, "K-C19[label-outside-int-range]", f13_cases, [exe, tmp], [drv], classify, env=env, keep_prefix=0, max_report=8, cmp=cmp)
     def nontrivial(op):
-        t = op.split()
+        t = strip_reuse(op).split()
         if t[0] in ("xcsv", "xsvm"): return int(t[9]) >= 2
         if t[0] == "rt": return int(t[-1]) >= 2
         return decode(op).count(b"\n") >= 2
